@@ -73,9 +73,35 @@ impl S2kParams {
 
 // ---- key packets --------------------------------------------------------------------------------------------------
 //@trusted T4 packet::PublicKey / PublicSubkey (packet/key/public.rs:36) are opaque packets around a PubKeyInner: from_inner(inner) = Ok(k) wraps exactly `inner` (it only adds a packet header; lengths: U75f); clone() is the same key; the KeyDetails observers read the inner fields (public.rs:996..1066); packet::SecretKey::new / SecretSubkey::new (secret.rs:58/124) = Ok(k) hold exactly the given public key and secret params (they only add a packet header); SecretKey / SecretSubkey forward KeyDetails to their public half; PacketHeader::tag() is an opaque observer
-#[verifier::external_body] pub struct PacketHeader { v: u8 }
+#[verifier::external_body] #[derive(Clone, Copy)] pub struct PacketHeader { v: u8 }
+/// a header of this format (old / new) can carry this tag (packet/header.rs:68: an old-format header has room for tags below 16 only)
+pub uninterp spec fn header_formable(version: types::PacketHeaderVersion, tag: Tag) -> bool;
+//@trusted T4 PacketHeader (packet/header.rs:18; U04): hv() / spec_tag() / spec_len() are its format, tag and stored length; version() / tag() / packet_length() read them; from_parts(version, tag, length) = Ok(h) is the header made of exactly these parts, and for a Fixed length it fails only if the format cannot carry the tag; every existing header is of a format that carries its tag (type invariant: it was made by from_parts / new_fixed / the parser)
 impl PacketHeader {
-    #[verifier::external_body] pub fn tag(&self) -> (r: Tag) { unimplemented!() }
+    pub uninterp spec fn hv(&self) -> types::PacketHeaderVersion;
+    pub uninterp spec fn spec_tag(&self) -> Tag;
+    pub uninterp spec fn spec_len(&self) -> PacketLength;
+    #[verifier::external_body] pub proof fn axiom_formable(&self) ensures header_formable(self.hv(), self.spec_tag()) {}
+    #[verifier::external_body] pub fn version(&self) -> (r: types::PacketHeaderVersion) ensures r == self.hv() { unimplemented!() }
+    #[verifier::external_body] pub fn tag(&self) -> (r: Tag) ensures r == self.spec_tag() { unimplemented!() }
+    #[verifier::external_body] pub fn packet_length(&self) -> (r: PacketLength) ensures r == self.spec_len() { unimplemented!() }
+    #[verifier::external_body]
+    pub fn from_parts(version: types::PacketHeaderVersion, tag: Tag, length: PacketLength) -> (r: errors::Result<PacketHeader>)
+        ensures
+            r matches Ok(h) ==> h.hv() == version && h.spec_tag() == tag && h.spec_len() == length,
+            (length is Fixed && header_formable(version, tag)) ==> r is Ok,
+    { unimplemented!() }
+}
+/// the length of the serialised body of a secret key packet: public key fields ++ secret params for this key version (Serialize::write_len, secret.rs:411/425;
+/// that it is the number of octets to_writer emits is U75f's subject)
+pub uninterp spec fn secret_packet_body_len(public: Seq<u8>, secret: SecretParams) -> usize;
+//@trusted T4 EncryptedSecretParams::unlock (U16) = Ok(p): p is the material this ciphertext unlocks to with that passphrase (unlock_result)
+pub uninterp spec fn unlock_result(e: EncryptedSecretParams, pw: Seq<u8>) -> PlainSecretParams;
+impl EncryptedSecretParams {
+    #[verifier::external_body]
+    pub fn unlock<K: types::KeyDetails + Serialize>(&self, pw: &Password, pub_key: &K, secret_tag: Option<Tag>) -> (r: errors::Result<PlainSecretParams>)
+        ensures r matches Ok(p) ==> p == unlock_result(*self, pw.octets())
+    { unimplemented!() }
 }
 pub mod packet {
     #[allow(unused_imports)] use super::*;
